@@ -694,7 +694,8 @@ namespace hs
             if (f.is_bad_size && h.badsize_calls == bad0)
                 violate("C03", "handler_not_called",
                         "bad_allocation_size thrown without calling its handler");
-            S.failure_seen = true;
+            S.failure_seen   = true;
+            S.last_end_valid = false; // a failed request may have moved the stack to a fresh block
             for (auto& m : S.markers)
                 m.tape_valid = false;
             shadow_.check_all(cprop("C03,C01"), "after a failed allocation");
@@ -789,22 +790,27 @@ namespace hs
                                                     "capacity_left %zu -> %zu for one node from a non-empty list",
                             pc0, pc1, cap0, cap1);
             }
-            else if ((c.kind == K_STACK || c.kind == K_ITER) && calls == 0)
+            else if (c.kind == K_STACK || c.kind == K_ITER)
             {
-                auto b = heap.find(p);
-                if (b && S.last_block_valid && S.last_block == b->off && cap1 <= cap0)
+                // in-block allocation: starts where the previous one (incl. its back fence) ended, plus front
+                // fence and alignment padding. Then capacity_left must drop by exactly the distance covered.
+                auto pu = reinterpret_cast<std::uintptr_t>(p);
+                auto blk = heap.find(p);
+                if (S.last_end_valid && blk && blk->off == S.last_block && pu >= S.last_end + FENCE
+                    && pu < S.last_end + FENCE + r.align && cap1 <= cap0)
                 {
-                    auto d = cap0 - cap1;
-                    if (d < usable + 2 * FENCE || d >= usable + 2 * FENCE + r.align)
-                        violate("C18", "counter_delta", "capacity_left dropped by %zu for %zu bytes at "
-                                                        "alignment %zu (fence %zu)",
-                                d, usable, r.align, FENCE);
+                    auto d    = cap0 - cap1;
+                    auto want = std::size_t(pu + usable + FENCE - S.last_end);
+                    // (if it would not have fitted, the stack moved to a block that merely happens to follow)
+                    if (want <= cap0 && d != want)
+                        violate("C18", "counter_delta", "capacity_left dropped by %zu, the allocation covers "
+                                                        "%zu bytes (size %zu, alignment %zu, fence %zu)",
+                                d, want, usable, r.align, FENCE);
+                    stats().hit("reach.stack_delta_checked");
                 }
-                if (b)
-                {
-                    S.last_block       = b->off;
-                    S.last_block_valid = true;
-                }
+                S.last_end       = pu + usable + FENCE;
+                S.last_end_valid = blk != nullptr;
+                S.last_block     = blk ? blk->off : 0;
             }
         }
         if (!in_replay || true)
@@ -1030,7 +1036,7 @@ namespace hs
         if (mi + 1 < S->markers.size())
             stats().hit("reach.unwind_nested");
         nontrivial_release_ = true;
-        S->last_block_valid = false;
+        S->last_end_valid = false;
         if (rel)
             violate("C06,C05", "unwind_released_upstream", "unwind returned %u block(s) upstream instead of "
                                                            "caching them",
@@ -1118,7 +1124,7 @@ namespace hs
         after_sut_call("next_iteration");
         hash_.add(0x73);
         nontrivial_release_ = true;
-        S->last_block_valid = false;
+        S->last_end_valid = false;
         auto cur = S->o->reading(5);
         if (cur != std::size_t(S->iter % N))
             violate("C07", "iteration_index", "cur_iteration() is %zu after %lld switches (N=%lld)", cur,
@@ -1241,7 +1247,8 @@ namespace hs
         if (!S)
             return;
         auto& c = S->o->caps;
-        if (c.kind == K_ARENA || c.kind == K_LIST)
+        // the low-level allocators leave the limits to the caller (traits do not check them): out of C18's scope
+        if (c.kind == K_ARENA || c.kind == K_LIST || c.kind == K_LOWLEVEL)
             return;
         int fam = int(op.arg(2)) % 2 ? COMP : TRAITS;
         if (fam == COMP && !c.comp)
